@@ -83,7 +83,6 @@ class TypeByte(object):
         if isinstance(op, ast.Add) and not swapped and isinstance(other, Pickled):
             nid = FreshInt('cmd')
             I.ctx.assume(z3.And(_ctype(nid) == to_z3(self.t), _clen(nid) >= 2))
-            I.ctx.ghost.setdefault('pickled_of', {})
             I.ctx.glist('cmd_payload').append((nid, other))
             return CmdV(nid)
         return NotImplemented
@@ -189,6 +188,7 @@ class LogCell(SList):
             termf = lambda i, ot=ot, t=t, nz=nz: z3.If(i == nz, t, ot(i))
             ctx.setcell(ref, LogCell(first, n + 1, cmdf, termf, self.meta_commit))
             ctx.glist('log_ops').append(('add', idx, term, cmd))
+            ctx.ghost['events'] = ctx.glist('events') + ['add']
             return None
         if name == 'clear':
             ctx.setcell(ref, LogCell(self.first, 0, self.cmdf, self.termf, self.meta_commit))
@@ -322,49 +322,9 @@ def _guarded_iter(I, it, s, fr, orig=Interp.iter_items):
 Interp.iter_items = _guarded_iter
 
 
-class WaitReply(PDict):
-    """self.__commandsWaitingReply: request id -> callback; abstracted to at most NREPLY pending entries
-    (ids symbolic, presence symbolic)."""
-
-    def __init__(self, slots):
-        PDict.__init__(self, {})
-        self.slots = list(slots)     # [(present Bool, id Int, cb)]
-
-    def call_method(self, I, ref, name, args, kw):
-        if name == 'pop':
-            rid = args[0]
-            default = args[1] if len(args) > 1 else None
-            for j, (p, i, cb) in enumerate(self.slots):
-                hit = And(p, Eq(i, rid))
-                if (I.ctx.decide(hit, 'waitreply-hit') if is_sym(hit) else hit):
-                    sl = list(self.slots)
-                    sl[j] = (False, i, cb)
-                    I.ctx.setcell(ref, WaitReply(sl))
-                    return cb
-            if len(args) > 1:
-                return default
-            I.raise_('KeyError')
-        return NotImplemented
-
-    def set_item(self, I, ref, idx, v):
-        I.ctx.setcell(ref, WaitReply(self.slots + [(True, idx, v)]))
-
-    def get_item(self, I, ref, idx):
-        for p, i, cb in self.slots:
-            hit = And(p, Eq(i, idx))
-            if (I.ctx.decide(hit, 'waitreply-hit') if is_sym(hit) else hit):
-                return cb
-        I.raise_('KeyError')
-
-    def keys_sorted(self, I):
-        """ids present, in ascending order: requires ids of slots to be assumed ascending"""
-        out = []
-        for p, i, cb in self.slots:
-            if p is False:
-                continue
-            if p is True or I.ctx.decide(p, 'waitreply-present'):
-                out.append(i)
-        return out
+class WaitReply(KVDict):
+    """self.__commandsWaitingReply: request id -> callback; at most NREPLY symbolic pending entries in the
+    pre-state (ids ascending, presence symbolic)"""
 
 
 def node_in_universe(ctx, name, U, allow_self=False):
@@ -415,7 +375,7 @@ class SO(object):
         ids = [FreshInt('rid%d' % j) for j in range(nreply)]
         for a, b in zip(ids, ids[1:]):
             c.assume(a < b)
-        self.waitreply = c.alloc(WaitReply([(FreshBool('hasReply%d' % j), ids[j], Callable_('user:replycb%d' % j))
+        self.waitreply = c.alloc(WaitReply([(FreshBool('hasReply%d' % j), ids[j], Callable_('user:replycb%d' % j, j))
                                             for j in range(nreply)]))
         leader_i = FreshInt('leaderIdx')
         voted_i = FreshInt('votedIdx')
@@ -606,6 +566,8 @@ def transport_send(I, selfv, args, kw):
         raise Undecided('transport.send to %r' % (node,))
     snap = ctx.cell(msg) if isinstance(msg, Ref) else msg
     ctx.ghost['outbox'] = ctx.glist('outbox') + [(node, PDict(snap.items) if isinstance(snap, PDict) else snap)]
+    if isinstance(snap, PDict) and snap.items.get('type') == 'next_node_idx' and snap.items.get('success') is True:
+        ctx.ghost['events'] = ctx.glist('events') + ['ack']
     so = I.hooks.get('so')
     if so is not None and I.hooks.get('send_may_disconnect', True):
         dropped = FreshBool('sendDropsConn')
